@@ -158,17 +158,34 @@ def _run(ctx):
     cmps = [(b, P.val_call(g, gbody, b)) for b, p, fr, t in P.calls(g) if p and common.last_seg(p) == "cmp"]
     u8roots = {P_(g, k_) for k_ in u8s}
     cmps = [(b, v_) for b, v_ in cmps if len(v_[4]) == 2 and set(ctx.roots(v_[4][0])) | set(ctx.roots(v_[4][1])) <= u8roots]      # other `cmp` calls compare amounts
-    if len(cmps) != 1:
+    if len(cmps) > 1:
         u1.fail("C10.U1:cmp", g.path, g.span, "expected one Ordering comparison of the two decimals, found %d: unrecognised-idiom" % len(cmps))
         return
-    cb, cv = cmps[0]
-    c0, c1 = "|".join(sorted(ctx.roots(cv[4][0]))), "|".join(sorted(ctx.roots(cv[4][1])))
-    m0, m1 = re.match(r"^P:%s#(\d+)$" % re.escape(g.path), c0), re.match(r"^P:%s#(\d+)$" % re.escape(g.path), c1)
-    if not m0 or not m1 or {int(m0.group(1)), int(m1.group(1))} != set(u8s):
-        u1.fail("C10.U1:cmp-operands", g.path, common.span_of_block_term(g, cb), "the Ordering comparison is not between the two decimals parameters")
-        return
+    if cmps:
+        cb, cv = cmps[0]
+        c0, c1 = "|".join(sorted(ctx.roots(cv[4][0]))), "|".join(sorted(ctx.roots(cv[4][1])))
+        m0, m1 = re.match(r"^P:%s#(\d+)$" % re.escape(g.path), c0), re.match(r"^P:%s#(\d+)$" % re.escape(g.path), c1)
+        if not m0 or not m1 or {int(m0.group(1)), int(m1.group(1))} != set(u8s):
+            u1.fail("C10.U1:cmp-operands", g.path, common.span_of_block_term(g, cb), "the Ordering comparison is not between the two decimals parameters")
+            return
+        CMP = "C:%s@%s:bb%d" % (generic_path(cv[3]), g.path, cb)
+    else:
+        # `if a > b {..} else if a < b {..} else {..}`: the same three-way split written with two comparisons
+        c0, c1 = P_(g, u8s[0]), P_(g, u8s[1])
+        m0 = re.match(r"^P:%s#(\d+)$" % re.escape(g.path), c0)
+        m1 = re.match(r"^P:%s#(\d+)$" % re.escape(g.path), c1)
+        CMP = None
+
+    def three_way(cs_):
+        """Greater / Less / Equal of (c0, c1) stated by a set of condition strings, else None."""
+        if "lt(%s, %s)" % (c1, c0) in cs_:
+            return "Greater"
+        if "lt(%s, %s)" % (c0, c1) in cs_:
+            return "Less"
+        if ("le(%s, %s)" % (c0, c1) in cs_ and "le(%s, %s)" % (c1, c0) in cs_) or "eq(%s) is [True]" % ", ".join(sorted([c0, c1])) in cs_:
+            return "Equal"
+        return None
     # ---- U1: find the three tuples and their branches --------------------------------------------------------
-    CMP = "C:%s@%s:bb%d" % (generic_path(cv[3]), g.path, cb)
     tuples = {}
     for b, blk in enumerate(gbody.blocks):
         if blk["cleanup"]:
@@ -179,10 +196,15 @@ def _run(ctx):
                 conds = common.control_conditions(P, g, b)
                 br = None
                 for c in conds:
-                    if c["cond"][0] == "discr" and "|".join(sorted(ctx.roots(c["cond"][1]))) == CMP and len(c["allowed"]) == 1:
+                    if CMP and c["cond"][0] == "discr" and "|".join(sorted(ctx.roots(c["cond"][1]))) == CMP and len(c["allowed"]) == 1:
                         br = c["allowed"][0]
+                if br is None and CMP is None:
+                    br = three_way(lemmas.cond_strings(ctx, conds))
                 if br:
                     tuples[br] = (b, v)
+    if sorted(tuples) != ["Equal", "Greater", "Less"] and CMP is None:
+        u1.fail("C10.U1:cmp", g.path, g.span, "expected one Ordering comparison of the two decimals (or an if / else-if chain over them), found none: unrecognised-idiom")
+        return
     if sorted(tuples) != ["Equal", "Greater", "Less"]:
         # scale form: the `match cmp` only yields the scale factors; offer, return and spread are each multiplied once,
         # unconditionally, by a factor whose value depends on the branch.  Evaluate every factor per branch.
